@@ -23,7 +23,19 @@ EvOK(w, e) ==
                                       /\ (AlertKind(w, p, e.metric) = "repin" => e.seen[p])
         [] e.kind = "syncs"  -> SyncsStepOK(w, mem, ps, ps2, e.logs, Range(e.peers))
 
+TagLog(log, p) == [i \in DOMAIN log |-> [by |-> p, kind |-> log[i][1], cid |-> log[i][2]]]
+\* two removals in a row: each judged as a removal of its own, the second one in the world without the first peer
+Verdict2(r) ==
+    LET e1 == r.events[1] e2 == r.events[2]
+        w2 == WAfter(r.w, r.ep.failed)
+        a1 == TagLog(e1.log, e1.at) a2 == TagLog(e2.log, e2.at) IN
+    [id |-> r.id,
+     frame |-> RehomeFrameOK(Range(r.ps0), r.acts, Range(r.psF)) /\ SamePs(Range(e1.ps2), Range(e2.ps)),
+     badcids |-> {e.cid : e \in {x \in Range(e1.ps) : ~RehomeCidOK(r.w, Step1(r.ep), a1, Range(e1.ps2), x)}}
+                 \cup {e.cid : e \in {x \in Range(e2.ps) : ~RehomeCidOK(w2, Step2(r.ep), a2, Range(e2.ps2), x)}},
+     drift |-> {i \in {1} : ~EvOK(r.w, e1)} \cup {i \in {2} : ~EvOK(w2, e2)}]
 Verdict(r) ==
+    IF r.ep.kind = "remove2" THEN Verdict2(r) ELSE
     LET ps0 == Range(r.ps0) psF == Range(r.psF) IN
     [id |-> r.id,
      frame |-> IF r.ep.kind = "sync" THEN ExpiryFrameOK(ps0, r.acts, psF) ELSE RehomeFrameOK(ps0, r.acts, psF),
